@@ -36,7 +36,9 @@
 //   reported as a failure (the case body runs on its own thread).
 // Soundness notes: cross-thread claims are only made for statements whose call had returned before flush_log() was
 //   invoked; when a TSC logger is involved the flush is additionally invoked >= 30 us later, far more than the error of the
-//   TSC -> wall-clock conversion a few milliseconds after its synchronisation (the grace period is the default 1 us).
+//   TSC -> wall-clock conversion a few milliseconds after its synchronisation (the grace period is the default 1 us); a
+//   case with a TSC logger that has been running for more than 250 ms (stalled on an overloaded machine: the backend
+//   re-synchronises its RdtscClock every 500 ms, which shifts the conversion) makes no cross-thread claim any more.
 // Fork per case. Params: maxops=N (default 28), hang_ms=N (default 30000), midcheck=0 (only the final comparison).
 #include "../engine/harness.h"
 
@@ -352,6 +354,7 @@ struct Case
   std::vector<Stmt> stmts;
   unsigned next_seq[2] = {0, 0};
   bool all_system{true};
+  std::chrono::steady_clock::time_point t_start{};
 
   std::string ops;
   bool stop_ops{false};
@@ -502,12 +505,13 @@ struct Case
   // One sink against the model. `T` / `limit`: the checking thread and the index of its last statement that was issued
   // before the flush; a statement is owed when its call is known to have completed, or it is T's own and <= limit.
   // Returns a complaint or "".
-  std::string check_sink(MSink const& S, int T, int limit, bool final_check, bool* rotated)
+  std::string check_sink(MSink const& S, int T, int limit, bool cross, bool final_check, bool* rotated)
   {
     auto owed = [&](int si)
     {
       Stmt const& st = stmts[static_cast<size_t>(si)];
-      return final_check || st.completed || (st.thr == T && si <= limit);
+      if (final_check) return true;
+      return st.thr == T ? si <= limit : (st.completed && cross);
     };
     bool concurrent = false;
     for (int si : S.routed) if (!owed(si)) concurrent = true;
@@ -615,13 +619,14 @@ struct Case
   }
 
   // every destination, right after a flush returned on thread T (runs on T)
-  void check_after_flush(int T, int limit, std::string const& what)
+  void check_after_flush(int T, int limit, bool cross, std::string const& what)
   {
     if (!g_midcheck || r.failed) return;
+    if (nthreads >= 2) r.label(cross ? "statements_of_the_parked_thread_checked" : "cross_thread_claim_dropped_slow_case");
     for (auto const& S : sinks)
     {
       bool rotated = false;
-      std::string e = check_sink(S, T, limit, false, &rotated);
+      std::string e = check_sink(S, T, limit, cross, false, &rotated);
       if (rotated) r.label("rotated_before_flush");
       if (!e.empty())
       {
@@ -856,6 +861,12 @@ struct Case
     hook_effect_pending = suppressed_pending = false;
   }
 
+  // May the statements of the other (parked) thread be claimed at a flush that is invoked now? System clock only: always.
+  // With a TSC logger the backend orders by converted timestamps; the conversion is monotonic and accurate to far less
+  // than the 30 us the flush is delayed by as long as the backend's RdtscClock has not been re-synchronised, which it does
+  // every 500 ms. A case takes milliseconds; one that was stalled for longer (overloaded machine) drops the claim.
+  bool cross_ok() const { return all_system || std::chrono::steady_clock::now() - t_start < std::chrono::milliseconds{250}; }
+
   // ---- ops ------------------------------------------------------------------------------------------------------
   // n statements through one logger on thread thr, synchronously
   void op_log(unsigned n, char const* tag)
@@ -901,14 +912,14 @@ struct Case
     quill::Logger* p = loggers[static_cast<size_t>(lg)].lg;
     int const limit = static_cast<int>(stmts.size()) - 1;
     bool const delay = nthreads >= 2 && !all_system;
-    if (nthreads >= 2) r.label("statements_of_the_parked_thread_checked");
     std::string const what = "flush_log() through logger L" + std::to_string(lg);
     exec(thr,
          [this, p, thr, limit, delay, what]()
          {
+           bool const cross = cross_ok();
            if (delay) spin_for_us(30);
            p->flush_log();
-           check_after_flush(thr, limit, what);
+           check_after_flush(thr, limit, cross, what);
          });
   }
 
@@ -957,10 +968,11 @@ struct Case
            for (size_t k = 0; k < calls.size(); ++k)
            {
              auto const& x = calls[k];
+             bool const cross = cross_ok();
              if (delay) spin_for_us(30);
              emit_immediate(x.lg, x.level, x.named, x.id, x.pay);
              // a statement below the logger's level is not logged and therefore does not flush either
-             if (logged) check_after_flush(thr, idx[k], "the immediate-flush log statement " + x.id);
+             if (logged) check_after_flush(thr, idx[k], cross, "the immediate-flush log statement " + x.id);
            }
          });
     for (int i : idx) stmts[static_cast<size_t>(i)].completed = true;
@@ -1018,9 +1030,10 @@ struct Case
     worker.post(
       [this, p, limit, delay, what]()
       {
+        bool const cross = cross_ok();
         if (delay) spin_for_us(30);
         p->flush_log();
-        check_after_flush(1, limit, what);
+        check_after_flush(1, limit, cross, what);
       });
     for (auto const& x : calls) emit_plain(x.lg, x.level, x.named, x.id, x.pay);
     worker.wait_idle();
@@ -1098,6 +1111,7 @@ struct Case
       return;
     }
 
+    t_start = std::chrono::steady_clock::now();
     quill::Backend::start(bo);
     if (nthreads >= 2) worker.start();
 
@@ -1123,7 +1137,7 @@ struct Case
     {
       if (r.failed) break;
       bool rotated = false;
-      std::string e = check_sink(S, 0, -1, true, &rotated);
+      std::string e = check_sink(S, 0, -1, true, true, &rotated);
       if (rotated) r.label("rotated");
       if (!e.empty()) r.fail(e + " [final comparison after Backend::stop()]");
     }
